@@ -203,7 +203,7 @@ type vc04Engine struct {
 	shutdown func()
 }
 
-func vc04StartEngine(t *testing.T, name string, sameAddr, auth bool, keysFile, aud string) *vc04Engine {
+func vc04StartEngine(t *testing.T, name string, sameAddr, auth bool, keysFile, aud string, routes []vc04Route) *vc04Engine {
 	e := New(func() {}, nil)
 	cfg := DefaultConfig()
 	cfg.Internal.Address = fmt.Sprintf("127.0.0.1:%d", test.FreeTCPPort())
@@ -219,7 +219,7 @@ func vc04StartEngine(t *testing.T, name string, sameAddr, auth bool, keysFile, a
 	if err := e.Configure(*core.NewServerConfig()); err != nil {
 		t.Fatalf("configure %s: %v", name, err)
 	}
-	for _, r := range vc04Routes {
+	for _, r := range routes {
 		id := r.ID
 		h := func(c echo.Context) error {
 			vc04Seen.mu.Lock()
@@ -370,6 +370,62 @@ func vc04MutatePath(r *rand.Rand, p string) string {
 	return string(b)
 }
 
+// a random route table (engine D): exercises the router model (static / :param / * segments, leaf and inner
+// params, priorities, backtracking) beyond the fixed canary set. First segments keep the bind clear.
+func vc04RandomRoutes(r *rand.Rand, n int) []vc04Route {
+	var res []vc04Route
+	seen := map[string]bool{}
+	for tries := 0; len(res) < n && tries < 400; tries++ {
+		p := "/" + []string{"internal", "internal", "internal", "pub", "status"}[r.Intn(5)]
+		depth := 1 + r.Intn(3)
+		for d := 0; d < depth; d++ {
+			switch k := r.Intn(10); {
+			case k < 5:
+				p += "/" + []string{"a", "b", "ab", "x", "internal"}[r.Intn(5)]
+			case k < 8:
+				p += "/:p" + strconv.Itoa(d)
+			default:
+				if d == depth-1 {
+					p += "/*"
+				} else {
+					p += "/a"
+				}
+			}
+		}
+		m := []string{"GET", "GET", "GET", "POST"}[r.Intn(4)]
+		// echo keeps ONE param name per tree position: normalise so that two routes never disagree on it
+		if seen[m+" "+p] {
+			continue
+		}
+		seen[m+" "+p] = true
+		res = append(res, vc04Route{ID: 100 + len(res), Method: m, Path: p})
+	}
+	return res
+}
+
+// request paths that instantiate the patterns of a route table (params / any filled with various values)
+func vc04BasePathsOf(r *rand.Rand, routes []vc04Route) []string {
+	var res []string
+	for _, rt := range routes {
+		for k := 0; k < 4; k++ {
+			var segs []string
+			for _, sg := range strings.Split(strings.TrimPrefix(rt.Path, "/"), "/") {
+				switch {
+				case strings.HasPrefix(sg, ":"):
+					segs = append(segs, []string{"v", "42", "a", "b", "", "ab", "x%2Fy"}[r.Intn(7)])
+				case sg == "*":
+					segs = append(segs, []string{"", "x", "x/y", "a/b/c"}[r.Intn(4)])
+				default:
+					segs = append(segs, sg)
+				}
+			}
+			res = append(res, "/"+strings.Join(segs, "/"))
+		}
+		res = append(res, rt.Path+"/extra", strings.TrimSuffix(rt.Path, "/*"))
+	}
+	return res
+}
+
 func vc04Query(r *rand.Rand) string {
 	switch r.Intn(8) {
 	case 0:
@@ -388,8 +444,8 @@ func vc04Query(r *rand.Rand) string {
 	return ""
 }
 
-func vc04Target(r *rand.Rand, method string) []byte {
-	p := vc04BasePaths[r.Intn(len(vc04BasePaths))]
+func vc04Target(r *rand.Rand, method string, bases []string) []byte {
+	p := bases[r.Intn(len(bases))]
 	if r.Intn(2) == 0 {
 		p = vc04MutatePath(r, p)
 	}
@@ -460,9 +516,9 @@ func TestVerifC04(t *testing.T) {
 	}
 	seed, _ := strconv.ParseInt(os.Getenv("VERIF_SEED"), 10, 64)
 	r := rand.New(rand.NewSource(seed*7919 + 4))
-	nReq := 6000
+	nReq := 9000
 	if os.Getenv("VERIF_TIER") == "thorough" {
-		nReq = 60000
+		nReq = 80000
 	}
 	if v := os.Getenv("VERIF_N"); v != "" {
 		nReq, _ = strconv.Atoi(v)
@@ -483,10 +539,13 @@ func TestVerifC04(t *testing.T) {
 		credByKind[c.kind] = c
 	}
 
+	rndRoutes := vc04RandomRoutes(r, 14)
+	rndBases := vc04BasePathsOf(r, rndRoutes)
 	engines := map[string]*vc04Engine{
-		"A": vc04StartEngine(t, "A", false, true, keysFile, aud),  // two listeners, token auth
-		"B": vc04StartEngine(t, "B", true, true, keysFile, aud),   // one shared listener, token auth
-		"C": vc04StartEngine(t, "C", false, false, keysFile, aud), // two listeners, no auth
+		"A": vc04StartEngine(t, "A", false, true, keysFile, aud, vc04Routes),  // two listeners, token auth
+		"B": vc04StartEngine(t, "B", true, true, keysFile, aud, vc04Routes),   // one shared listener, token auth
+		"C": vc04StartEngine(t, "C", false, false, keysFile, aud, vc04Routes), // two listeners, no auth
+		"D": vc04StartEngine(t, "D", false, true, keysFile, aud, rndRoutes),   // two listeners, token auth, random route table
 	}
 	defer func() {
 		for _, e := range engines {
@@ -514,9 +573,11 @@ func TestVerifC04(t *testing.T) {
 		Int  string `json:"int"`
 		Pub  string `json:"pub"`
 		Auth bool   `json:"auth"`
+		RS   string `json:"rs"`
 	}
-	cfg := map[string]interface{}{"op": "cfg", "routes": vc04Routes, "keys": []string{keys[0].comment, keys[1].comment}, "aud": aud, "now": now.Unix(),
-		"engines": map[string]engCfg{"A": {"i", "p", true}, "B": {"s", "s", true}, "C": {"i", "p", false}}}
+	cfg := map[string]interface{}{"op": "cfg", "routesets": map[string][]vc04Route{"std": vc04Routes, "rnd": rndRoutes},
+		"keys": []string{keys[0].comment, keys[1].comment}, "aud": aud, "now": now.Unix(),
+		"engines": map[string]engCfg{"A": {"i", "p", true, "std"}, "B": {"s", "s", true, "std"}, "C": {"i", "p", false, "std"}, "D": {"i", "p", true, "rnd"}}}
 	emit(cfg, "cfg")
 
 	run := func(op vc04Op) string {
@@ -608,16 +669,20 @@ func TestVerifC04(t *testing.T) {
 	}
 
 	methods := []string{"GET", "GET", "GET", "GET", "GET", "POST", "CONNECT", "OPTIONS", "DELETE", "HEAD"}
-	engNames := []string{"A", "A", "A", "B", "B", "C"}
+	engNames := []string{"A", "A", "A", "B", "B", "C", "D", "D", "D"}
 	for i := 0; i < nReq; i++ {
 		m := methods[r.Intn(len(methods))]
-		target := vc04Target(r, m)
+		en := engNames[r.Intn(len(engNames))]
+		bases := vc04BasePaths
+		if en == "D" {
+			bases = rndBases
+		}
+		target := vc04Target(r, m, bases)
 		c := creds[0]
 		if r.Intn(3) == 0 {
 			c = creds[r.Intn(len(creds))]
 		}
 		tk := c.tok
-		en := engNames[r.Intn(len(engNames))]
 		for _, lis := range []string{"int", "pub"} {
 			if en == "B" && lis == "pub" {
 				continue
